@@ -1335,3 +1335,251 @@ Proof.
   eapply dns_done_slot_deadline; [exact Hc| |exact Ho].
   unfold sock_ok in Hs. rewrite Forall_forall in Hs. auto.
 Qed.
+
+(* --- query_terminates --- *)
+
+(* events that do not answer the query in slot h: datagrams to another port or with another id,
+   and no get/cancel of that slot (a result taken from the slot frees it for reuse) *)
+Definition ev_quiet (h : nat) (port txid : Z) (ev : dns_event) : Prop :=
+  match ev with
+  | EvRsp _ _ dp pkt => dp <> port \/ wdns_transaction_id pkt <> Ok txid
+  | EvGet i => i <> h
+  | EvCancel i => i <> h
+  | _ => True
+  end.
+
+(* "polled according to poll_at": time does not go backwards, and a poll is never later than the
+   deadline poll_at reported after the previous event (when that deadline is already in the past
+   the poll may only happen "now", i.e. at the time of the previous poll) *)
+Fixpoint dns_sched (cfg : dns_cfg) (h : nat) (port txid : Z) (s : dns_sock) (now : Z) (evs : list dns_event) : Prop :=
+  match evs with
+  | [] => True
+  | ev :: evs' =>
+    ev_ok ev /\ ev_quiet h port txid ev /\
+    match ev with
+    | EvPoll t => now <= t /\ (forall d, dns_poll_at s = Some d -> t <= Z.max d now)
+    | _ => True
+    end /\
+    dns_sched cfg h port txid (fst (dns_step cfg s ev)) (match ev with EvPoll t => t | _ => now end) evs'
+  end.
+
+(* time of the first poll (if any so far) and of the last one *)
+Fixpoint dns_ghost (t0 : option Z) (now : Z) (evs : list dns_event) : option Z * Z :=
+  match evs with
+  | [] => (t0, now)
+  | EvPoll t :: r => dns_ghost (match t0 with None => Some t | Some _ => t0 end) t r
+  | _ :: r => dns_ghost t0 now r
+  end.
+
+Definition slot_timer_inv (n port txid : Z) (mdns : bool) (t0 : option Z) (now : Z)
+           (o : option (option dns_qstate)) : Prop :=
+  o = Some (Some QFailure) \/
+  exists pq, o = Some (Some (QPending pq)) /\ pq_port pq = port /\ pq_txid pq = txid /\ pq_mdns pq = mdns /\
+    match t0 with
+    | None => pq_timeout_at pq = None /\ pq_server_idx pq = 0
+    | Some t0 => exists T, pq_timeout_at pq = Some T /\ now < T /\
+                           T <= t0 + (pq_server_idx pq + 1) * dns_RETRANSMIT_TIMEOUT /\
+                           0 <= pq_server_idx pq < n
+    end.
+
+Lemma dns_find_none_spec : forall qs k i, dns_find_none qs k = Some i -> (k <= i)%nat /\ nth_error qs (i - k) = Some None.
+Proof.
+  induction qs as [|q qs IH]; intros k i H; cbn in H; [discriminate|].
+  destruct q as [q|].
+  - destruct (IH _ _ H) as [A B]. split; [lia|]. replace (i - k)%nat with (S (i - S k)) by lia. exact B.
+  - inv H. split; [lia|]. rewrite Nat.sub_diag. reflexivity.
+Qed.
+
+(* a used slot is not touched by starting another query *)
+Lemma dns_start_query_raw_other : forall cfg s raw t m txid port s' r h x,
+  dns_start_query_raw cfg s raw t m txid port = (s', r) ->
+  nth_error (ds_queries s) h = Some (Some x) -> nth_error (ds_queries s') h = Some (Some x).
+Proof.
+  intros cfg s raw t m txid port s' r h x H Hh. unfold dns_start_query_raw, dns_find_free_query in H.
+  assert (Hlt : (h < length (ds_queries s))%nat) by (apply nth_error_Some; congruence).
+  destruct (dns_find_none (ds_queries s) 0) as [i|] eqn:Ef.
+  - destruct (dns_find_none_spec _ _ _ Ef) as [_ Hi]. rewrite Nat.sub_0_r in Hi.
+    destruct (wdns_len raw >? c_max_name cfg); inv H; [assumption|].
+    cbn [dns_set_slot ds_queries]. rewrite nth_error_set_nth.
+    destruct (Nat.eqb h i) eqn:E; [|assumption]. apply Nat.eqb_eq in E. subst. congruence.
+  - destruct (ds_owned s); [|inv H; assumption].
+    destruct (wdns_len raw >? c_max_name cfg); inv H; cbn [dns_set_slot ds_queries].
+    + rewrite nth_error_app1; assumption.
+    + rewrite nth_error_set_nth. destruct (Nat.eqb h (length (ds_queries s))) eqn:E.
+      * apply Nat.eqb_eq in E. lia.
+      * rewrite nth_error_app1; assumption.
+Qed.
+
+Lemma dns_start_query_other : forall cfg s name t txid port s' r h x,
+  dns_start_query cfg s name t txid port = (s', r) ->
+  nth_error (ds_queries s) h = Some (Some x) -> nth_error (ds_queries s') h = Some (Some x).
+Proof.
+  intros cfg s name t txid port s' r h x H Hh. unfold dns_start_query in H.
+  destruct name as [|c name]; [inv H; assumption|].
+  destruct (dns_encode_labels _ _ _); try (inv H; assumption).
+  destruct (dns_vec_push _ _ _); [|inv H; assumption].
+  eapply dns_start_query_raw_other; eauto.
+Qed.
+
+(* a quiet non-poll event leaves a used slot h as it is *)
+Lemma dns_step_quiet_unchanged : forall cfg s ev h x port txid,
+  ev_quiet h port txid ev ->
+  (match ev with EvPoll _ => False | _ => True end) ->
+  nth_error (ds_queries s) h = Some (Some x) ->
+  (forall pq, x = QPending pq -> pq_port pq = port /\ pq_txid pq = txid) ->
+  (x = QFailure \/ exists pq, x = QPending pq) ->
+  nth_error (ds_queries (fst (dns_step cfg s ev))) h = Some (Some x).
+Proof.
+  intros cfg s ev h x port txid Hq Hnp Hh Hpt Hx.
+  destruct ev as [name t tx pt|raw t m tx pt|i|i|now|src sp dp pkt]; cbn [dns_step]; try contradiction.
+  - destruct (dns_start_query cfg s name t tx pt) as [s' r] eqn:E. eapply dns_start_query_other; eauto.
+  - destruct (dns_start_query_raw cfg s raw t m tx pt) as [s' r] eqn:E. eapply dns_start_query_raw_other; eauto.
+  - cbn in Hq. destruct (dns_get_query_result s i) as [s' r] eqn:E. cbn [fst]. unfold dns_get_query_result in E.
+    destruct (nth_error (ds_queries s) i) as [[[pq|a|]|]|]; inv E; auto;
+      cbn [dns_set_slot ds_queries]; rewrite nth_error_set_nth;
+      (destruct (Nat.eqb h i) eqn:E; [apply Nat.eqb_eq in E; congruence|assumption]).
+  - cbn in Hq. destruct (dns_cancel_query s i) as [s' r] eqn:E. cbn [fst]. unfold dns_cancel_query in E.
+    destruct (nth_error (ds_queries s) i) as [[q|]|]; inv E; auto;
+      cbn [dns_set_slot ds_queries]; rewrite nth_error_set_nth;
+      (destruct (Nat.eqb h i) eqn:E; [apply Nat.eqb_eq in E; congruence|assumption]).
+  - cbn in Hq. destruct (dns_ingress cfg s src sp dp pkt) as [[s' acc]| |] eqn:E; cbn [fst]; auto.
+    destruct Hx as [->|(pq & ->)].
+    + rewrite (dns_ingress_other _ _ _ _ _ _ _ _ h E); [assumption|]. intros pq; congruence.
+    + destruct (Hpt pq eq_refl) as [P1 P2].
+      destruct (dns_ingress_slot _ _ _ _ _ _ _ _ _ _ E Hh) as [A|[(_ & A2 & A3) _]]; [assumption|].
+      exfalso. destruct A3 as (_ & _ & _ & _ & A5). destruct Hq as [Hq|Hq]; [congruence|]. apply Hq. congruence.
+Qed.
+
+Lemma nth_error_map_some : forall A B (f : A -> B) l h x, nth_error l h = Some x -> nth_error (map f l) h = Some (f x).
+Proof. intros. rewrite nth_error_map. rewrite H. reflexivity. Qed.
+
+(* one poll keeps the timer invariant *)
+Lemma dns_poll_timer_inv : forall cfg s t now t0 h port txid (mdns : bool),
+  cfg_ok cfg -> sock_ok cfg s ->
+  let n := Z.of_nat (length (if mdns then [dns_MDNS_IPV6_ADDR; dns_MDNS_IPV4_ADDR] else ds_servers s)) in
+  slot_timer_inv n port txid mdns t0 now (nth_error (ds_queries s) h) ->
+  now <= t -> (forall d, dns_poll_at s = Some d -> t <= Z.max d now) ->
+  slot_timer_inv n port txid mdns (match t0 with None => Some t | Some _ => t0 end) t
+                 (nth_error (ds_queries (fst (dns_step cfg s (EvPoll t)))) h).
+Proof.
+  intros cfg s t now t0 h port txid mdns Hc Hs n K Hnow Hsched.
+  pose proof dns_consts_pos as (P1 & P2 & P3).
+  cbn [dns_step]. destruct (dns_poll_spec cfg s t Hc Hs) as (txs & E). rewrite E. cbn [fst ds_queries].
+  destruct K as [K|(pq & K1 & K2 & K3 & K4 & K5)].
+  { left. rewrite (nth_error_map_some _ _ _ _ _ _ K). reflexivity. }
+  rewrite (nth_error_map_some _ _ _ _ _ _ K1). cbn [dns_done_slot].
+  assert (Hq : pq_ok cfg pq).
+  { unfold sock_ok in Hs. rewrite Forall_forall in Hs. apply (Hs (Some (QPending pq))). eapply nth_error_In; eauto. }
+  destruct (dns_dispatch_query_spec cfg (ds_servers s) t pq Hc Hq) as (r & Er & C). rewrite Er.
+  assert (Esrv : Z.of_nat (length (dns_eff_servers (ds_servers s) pq)) = n).
+  { unfold n, dns_eff_servers. rewrite K4. reflexivity. }
+  rewrite Esrv in C.
+  (* the timer fields after the timeout check *)
+  assert (P2inv : pq_server_idx (dns_pq2 t pq) < n ->
+    exists T, pq_timeout_at (dns_pq2 t pq) = Some T /\ t < T /\
+      T <= match t0 with None => t | Some t0 => t0 end + (pq_server_idx (dns_pq2 t pq) + 1) * dns_RETRANSMIT_TIMEOUT /\
+      0 <= pq_server_idx (dns_pq2 t pq) < n).
+  { intros Hidx. unfold dns_pq2 in *. destruct t0 as [t0|].
+    - destruct K5 as (T & T1 & T2 & T3 & T4 & T5). rewrite T1 in *.
+      assert (t <= T).
+      { destruct (dns_poll_at_le_deadline s h pq K1) as (d & D1 & D2). specialize (Hsched d D1).
+        unfold dns_pq_deadline in D2. rewrite T1 in D2. lia. }
+      destruct (T <=? t) eqn:Et; cbn in *.
+      + eexists; split; [reflexivity|]. split; [lia|]. split; [|lia].
+        assert (T = t) by lia. subst. nia.
+      + eexists; split; [reflexivity|]. split; [lia|]. split; [lia|lia].
+    - destruct K5 as (T1 & T2). rewrite T1 in *.
+      replace (t + dns_RETRANSMIT_TIMEOUT <=? t) with false in * by (symmetry; apply Z.leb_gt; lia).
+      cbn in *. eexists; split; [reflexivity|]. split; [lia|]. rewrite T2 in *. split; lia. }
+  assert (Same : pq_port (dns_pq2 t pq) = port /\ pq_txid (dns_pq2 t pq) = txid /\ pq_mdns (dns_pq2 t pq) = mdns).
+  { unfold dns_pq2. destruct (_ <=? t); cbn; auto. }
+  destruct Same as (S1 & S2 & S3).
+  destruct C as [[-> _]|[[-> (C1 & C2 & _)]|(tx & dst & -> & C1 & _)]]; cbn [dq_state].
+  - left; reflexivity.
+  - right. exists (dns_pq2 t pq). split; [reflexivity|]. repeat split; auto.
+    destruct (P2inv C1) as (T & A1 & A2 & A3 & A4). destruct t0; eexists; eauto.
+  - right. exists (dns_pq_sent t (dns_pq2 t pq)). split; [reflexivity|]. repeat split; auto.
+    destruct (P2inv C1) as (T & A1 & A2 & A3 & A4). unfold dns_pq_sent. cbn. destruct t0; eexists; eauto.
+Qed.
+
+(* the invariant along a whole schedule *)
+Lemma dns_sched_timer_inv : forall cfg h port txid (mdns : bool) evs s now t0,
+  cfg_ok cfg -> sock_ok cfg s ->
+  let n := Z.of_nat (length (if mdns then [dns_MDNS_IPV6_ADDR; dns_MDNS_IPV4_ADDR] else ds_servers s)) in
+  slot_timer_inv n port txid mdns t0 now (nth_error (ds_queries s) h) ->
+  dns_sched cfg h port txid s now evs ->
+  slot_timer_inv n port txid mdns (fst (dns_ghost t0 now evs)) (snd (dns_ghost t0 now evs))
+                 (nth_error (ds_queries (dns_run cfg s evs)) h).
+Proof.
+  induction evs as [|ev evs IH]; intros s now t0 Hc Hs n K Hsch; cbn [dns_run dns_ghost dns_sched] in *.
+  { exact K. }
+  destruct Hsch as (Hev & Hq & Hp & Hrest).
+  destruct (dns_step_sock_ok cfg s ev Hc Hs Hev) as [Hs' Hsrv].
+  assert (Hn : Z.of_nat (length (if mdns then [dns_MDNS_IPV6_ADDR; dns_MDNS_IPV4_ADDR] else ds_servers (fst (dns_step cfg s ev)))) = n)
+    by (unfold n; rewrite Hsrv; reflexivity).
+  assert (Other : (match ev with EvPoll _ => False | _ => True end) ->
+                  slot_timer_inv n port txid mdns t0 now (nth_error (ds_queries (fst (dns_step cfg s ev))) h)).
+  { intros Hnp. destruct K as [K|(pq & K1 & K2 & K3 & K4 & K5)].
+    - left. apply (dns_step_quiet_unchanged cfg s ev h QFailure port txid Hq Hnp K); [intros; discriminate|left; reflexivity].
+    - right. exists pq. split; [|auto].
+      apply (dns_step_quiet_unchanged cfg s ev h (QPending pq) port txid Hq Hnp K1); [intros p Ep; inv Ep; auto|right; eauto]. }
+  destruct ev as [name t tx pt|raw t m tx pt|i|i|t|src sp dp pkt];
+    try (specialize (IH _ now t0 Hc Hs'); rewrite Hn in IH; apply IH; [apply Other; exact I|exact Hrest]).
+  destruct Hp as [Hp1 Hp2].
+  specialize (IH _ t (match t0 with None => Some t | Some _ => t0 end) Hc Hs'). rewrite Hn in IH.
+  apply IH; [|exact Hrest]. eapply dns_poll_timer_inv; eauto.
+Qed.
+
+(* what start_query leaves in the slot it returns *)
+Lemma dns_start_query_raw_fresh : forall cfg s raw t m txid port s' h,
+  dns_start_query_raw cfg s raw t m txid port = (s', Ok h) ->
+  nth_error (ds_queries s') h =
+  Some (Some (QPending (mkPending raw t port txid None 0 dns_RETRANSMIT_DELAY 0 m))) /\
+  ds_servers s' = ds_servers s.
+Proof.
+  intros cfg s raw t m txid port s' h H. unfold dns_start_query_raw, dns_find_free_query in H.
+  destruct (dns_find_none (ds_queries s) 0) as [i|] eqn:Ef.
+  - destruct (dns_find_none_spec _ _ _ Ef) as [_ Hi]. rewrite Nat.sub_0_r in Hi.
+    destruct (wdns_len raw >? c_max_name cfg); inv H. split; [|reflexivity].
+    cbn [dns_set_slot ds_queries]. rewrite nth_error_set_nth, Nat.eqb_refl, Hi. reflexivity.
+  - destruct (ds_owned s); [|inv H].
+    destruct (wdns_len raw >? c_max_name cfg); inv H. split; [|reflexivity].
+    cbn [dns_set_slot ds_queries]. rewrite nth_error_set_nth, Nat.eqb_refl.
+    rewrite nth_error_app2, Nat.sub_diag by lia. reflexivity.
+Qed.
+
+Lemma dns_start_query_fresh : forall cfg s name t txid port s' h,
+  dns_start_query cfg s name t txid port = (s', Ok h) ->
+  exists raw mdns,
+    nth_error (ds_queries s') h =
+    Some (Some (QPending (mkPending raw t port txid None 0 dns_RETRANSMIT_DELAY 0 mdns))) /\
+    ds_servers s' = ds_servers s.
+Proof.
+  intros cfg s name t txid port s' h H. unfold dns_start_query in H.
+  destruct name as [|c name]; [inv H|].
+  destruct (dns_encode_labels _ _ _); try (inv H; fail).
+  destruct (dns_vec_push _ _ _) as [raw|]; [|inv H].
+  do 2 eexists. eapply dns_start_query_raw_fresh; eauto.
+Qed.
+
+(* query_terminates: a started query, no answering datagram, polls no later than poll_at says:
+   by the time of the first poll + (number of servers) * RETRANSMIT_TIMEOUT the query has failed *)
+Lemma dns_query_terminates : forall cfg evs s now0 h pq t0 t_last,
+  cfg_ok cfg -> sock_ok cfg s ->
+  nth_error (ds_queries s) h = Some (Some (QPending pq)) ->
+  pq_timeout_at pq = None -> pq_server_idx pq = 0 ->
+  dns_sched cfg h (pq_port pq) (pq_txid pq) s now0 evs ->
+  dns_ghost None now0 evs = (Some t0, t_last) ->
+  t0 + Z.of_nat (length (dns_eff_servers (ds_servers s) pq)) * dns_RETRANSMIT_TIMEOUT <= t_last ->
+  nth_error (ds_queries (dns_run cfg s evs)) h = Some (Some QFailure).
+Proof.
+  intros cfg evs s now0 h pq t0 t_last Hc Hs Hh Ht Hi Hsch Hg Hb.
+  pose proof dns_consts_pos as (P1 & P2 & P3).
+  pose proof (dns_sched_timer_inv cfg h (pq_port pq) (pq_txid pq) (pq_mdns pq) evs s now0 None Hc Hs) as K.
+  cbv zeta in K. rewrite Hg in K. cbn [fst snd] in K.
+  destruct K as [K|(pq' & K1 & K2 & K3 & K4 & T & T1 & T2 & T3 & T4)]; auto.
+  { right. exists pq. rewrite Hh. repeat split; auto. }
+  exfalso. unfold dns_eff_servers in Hb.
+  set (n := Z.of_nat (length (if pq_mdns pq then [dns_MDNS_IPV6_ADDR; dns_MDNS_IPV4_ADDR] else ds_servers s))) in *.
+  nia.
+Qed.
